@@ -129,9 +129,16 @@ func genC05(t *rapid.T) C05Case {
 		MaxArity: rapid.IntRange(2, arityMax(5, 8)).Draw(t, "maxarity"),
 		Custom:   true, Consts: true, Aliases: true, BoolW: 8, VarW: 14,
 	}}
-	tree := wrapRoot(g.Program(rootTy(t)))
+	var tree *m.Node
+	var wish map[string]bool
+	if rapid.IntRange(0, 5).Draw(t, "chain") == 0 {
+		tree, wish = decisionChain(t) // one innermost boolean decides a chain of and/or levels through nested ifs
+	} else {
+		tree = wrapRoot(g.Program(rootTy(t)))
+	}
 	fixEmptyLists(tree)
 	u := UniverseFor(t, tree, false)
+	applyWishes(u, wish)
 	repairNonFailing(tree, u)
 	tree = wrapRoot(tree)
 	return C05Case{U: *u, Tree: tree, Avail: genTrySplit(t, tree, nil), Src: m.Render(tree)}
